@@ -23,6 +23,9 @@ pub enum FaultKind {
     /// black hole: source pending forever without a wake-up, sink accepts into the void;
     /// `close_ok` = whether `poll_close` completes
     Silent { close_ok: bool },
+    /// black hole whose send buffer is full: source pending forever, the sink never becomes ready again, nothing can be
+    /// flushed or closed (a dead peer behind a TCP connection with a full send queue)
+    SilentBlockedSink,
     /// deliver a Binary message that is not a valid frame (peer stays connected)
     Garbage(Vec<u8>),
     /// only the write side fails; what the peer sent (and sends) can still be read
@@ -37,6 +40,7 @@ impl FaultKind {
             Self::RecvErr => "RecvErr".into(),
             Self::SendErr { silent_source } => format!("SendErr(silent_source={silent_source})"),
             Self::Silent { close_ok } => format!("Silent(close_ok={close_ok})"),
+            Self::SilentBlockedSink => "SilentBlockedSink".into(),
             Self::Garbage(b) => format!("Garbage({}B)", b.len()),
             Self::SendErrOnly => "SendErrOnly".into(),
         }
@@ -71,6 +75,8 @@ enum Sink {
     Normal,
     Err,
     Void,
+    /// never ready, never flushed, never closed (and never woken)
+    Blocked,
 }
 
 struct Link {
@@ -152,6 +158,11 @@ impl Net {
                 self.eps[e].src = Src::Silent;
                 self.eps[e].sink = Sink::Void;
                 self.eps[e].close_never_completes = !close_ok;
+            }
+            FaultKind::SilentBlockedSink => {
+                self.eps[e].src = Src::Silent;
+                self.eps[e].sink = Sink::Blocked;
+                self.eps[e].close_never_completes = true;
             }
             FaultKind::Garbage(bytes) => {
                 self.links[p].q.push_front(Message::Binary(bytes.into()));
@@ -242,6 +253,7 @@ impl WebSocket for MemWs {
         match n.eps[e].sink {
             Sink::Err => Poll::Ready(Err(io_err("sink failed"))),
             Sink::Void => Poll::Ready(Ok(())),
+            Sink::Blocked => Poll::Pending,
             Sink::Normal => {
                 let l = &mut n.links[e];
                 if l.cap > 0 && l.q.len() >= l.cap {
@@ -266,7 +278,7 @@ impl WebSocket for MemWs {
         }
         match n.eps[e].sink {
             Sink::Err => Err(io_err("sink failed")),
-            Sink::Void => Ok(()),
+            Sink::Void | Sink::Blocked => Ok(()),
             Sink::Normal => {
                 if n.links[e].close_queued {
                     return Err(io_err("send after close"));
@@ -289,6 +301,9 @@ impl WebSocket for MemWs {
         if n.eps[e].sink == Sink::Err {
             return Poll::Ready(Err(io_err("sink failed")));
         }
+        if n.eps[e].sink == Sink::Blocked {
+            return Poll::Pending;
+        }
         if n.eps[e].flush_pending_left > 0 && n.eps[e].sink == Sink::Normal {
             n.eps[e].flush_pending_left -= 1;
             cx.waker().wake_by_ref();
@@ -310,6 +325,7 @@ impl WebSocket for MemWs {
         match n.eps[e].sink {
             Sink::Err => Poll::Ready(Err(io_err("sink failed"))),
             Sink::Void => Poll::Ready(Ok(())),
+            Sink::Blocked => Poll::Pending,
             Sink::Normal => {
                 if !n.links[e].close_queued {
                     n.links[e].close_queued = true;
